@@ -85,3 +85,139 @@ class SemReal:
 
     def close(self):
         self.env.close()
+
+
+# ---------------------------------------------------------------------------------------
+# C34: Condition / Event behind the CondEvent.tla action interface
+
+def _wait_state(fut):
+    """Terminal state name of a finished wait future (CondEvent.tla's st values)."""
+    if fut.cancelled():
+        return "cancelled"
+    e = fut.exception()
+    if e is not None:
+        return "timeout" if type(e).__name__ == "TimeoutError" else "exc:" + type(e).__name__
+    r = fut.result()
+    if r is True:
+        return "true"
+    if r is False:
+        return "false"
+    if r is None:
+        return "ok"
+    return "res:" + repr(r)[:20]
+
+
+class CondEventReal:
+    """Real tornado.locks.Condition / Event on the virtual loop.
+
+    style: timeouts are passed alternately as datetime.timedelta and as absolute deadlines
+    (IOLoop.time() + t), starting with timedelta when style is even.
+
+    Event waits are held through weak references only: the harness drops the future as soon as
+    the call returns, a done-callback (which does not refer to the future) records the outcome.
+    `held[w]` is whether the future object is still alive after the step's settle - for a
+    pending wait the event itself must keep it reachable, for a finished wait nothing may
+    ("finished waits leave no residue").  Condition waits are held strongly (no residue claim:
+    timed-out condition waiters are cleaned lazily by design)."""
+
+    def __init__(self, cfg, nw, style=0):
+        from tornado import locks
+        self.env = Env()
+        self.nw = nw
+        self.kind = cfg["kind"]
+        self.obj = locks.Condition() if self.kind == "cond" else locks.Event()
+        self.refs = {}      # w -> callable returning the future or None
+        self.final = {}     # w -> terminal state
+        self.dl = {}        # w -> relative timeout given (None = no deadline)
+        self.woken = []
+        self.err = "none"
+        self.style = style
+        self.calls = 0
+
+    def _timeout(self, to):
+        if to == NOTO:
+            return None
+        self.calls += 1
+        if (self.style + self.calls) & 1:
+            return datetime.timedelta(seconds=to)
+        return self.env.now + to
+
+    def pending(self):
+        return [w for w in self.refs if w not in self.final]
+
+    def _st(self):
+        st = []
+        for w in range(1, self.nw + 1):
+            if w not in self.refs:
+                st.append("idle")
+            else:
+                st.append(self.final.get(w, "pending"))
+        return st
+
+    def proj(self):
+        if self.kind == "cond":
+            p = {"st": self._st(), "woken": list(self.woken)}
+        else:
+            held = [(w in self.refs and self.refs[w]() is not None) for w in range(1, self.nw + 1)]
+            if any(h and (w + 1) in self.final for w, h in enumerate(held)):
+                # refcounting did not free a finished wait: give the cycle collector a chance before
+                # calling it residue (only reference cycles are excused, not live references)
+                import gc
+                gc.collect()
+                held = [(w in self.refs and self.refs[w]() is not None) for w in range(1, self.nw + 1)]
+            p = {"st": self._st(), "flag": self.obj.is_set(), "held": held}
+        if self.err != "none":
+            p["err"] = self.err
+        return p
+
+    def _track(self, w, fut):
+        me = self
+
+        def cb(f, w=w):
+            s = _wait_state(f)
+            me.final[w] = s
+            if s == "true":
+                me.woken.append(w)
+        fut.add_done_callback(cb)
+        if self.kind == "cond":
+            self.refs[w] = (lambda fut=fut: fut)
+        else:
+            import weakref
+            self.refs[w] = weakref.ref(fut)
+
+    def step(self, act, args):
+        self.err = "none"
+        try:
+            if act in ("wait", "ev_wait"):
+                w, to = args
+                self.dl[w] = None if to == NOTO else to
+                self._track(w, self.obj.wait(self._timeout(to)))
+            elif act == "notify":
+                self.obj.notify(args[0])
+            elif act == "notify_all":
+                self.obj.notify_all()
+            elif act == "set":
+                self.obj.set()
+            elif act == "clear":
+                self.obj.clear()
+            elif act == "advance":
+                self.env.advance(args[0])
+            elif act == "cancel":
+                f = self.refs[args[0]]()
+                if f is None:
+                    self.err = "lost-future"
+                else:
+                    f.cancel()
+                    del f
+            else:
+                raise ValueError(act)
+        except Exception as e:      # any exception of the real call is an observation, never a harness crash
+            self.err = type(e).__name__
+        self.env.settle()
+        if self.env.loop.uncaught:
+            self.err = "uncaught:" + str(self.env.loop.uncaught[0].get("message"))[:60]
+            del self.env.loop.uncaught[:]
+        return self.proj()
+
+    def close(self):
+        self.env.close()
